@@ -401,3 +401,80 @@ def run_k2t(chk, n_tus, cases_per_tu, scripts_per_case, size_range=(3, 9), cfg="
                                   to_model(e), pre, sc, k, ";".join(a[k:k + 3])[:120], ";".join(b[k:k + 3])[:120]))
     stats["distinct_traces"] = len(distinct)
     return stats
+
+
+# ------------------------------------------------------------------------------------------ task objects (TaskBox)
+def taskbox_monitor(trace):
+    """every created frame destroyed exactly once, a body runs only in a live frame, nothing left at the end"""
+    body, _, tail = trace.partition(" # ")
+    created, destroyed = {}, {}
+    for x in [y for y in body.split(";") if y]:
+        w = x.split()
+        if w[0] == "frame": created[int(w[1])] = created.get(int(w[1]), 0) + 1
+        if w[0] == "framedtor":
+            n = int(w[1]); destroyed[n] = destroyed.get(n, 0) + 1
+            if destroyed[n] > 1: return "frame: %d destroyed twice" % n
+            if n not in created: return "frame: %d destroyed but never created" % n
+        if w[0] in ("ctor", "dtor") and int(w[1]) in destroyed: return "frame: body of %s ran after its frame was destroyed" % w[1]
+    for n in created:
+        if created[n] != 1: return "frame: %d created %d times" % (n, created[n])
+        if destroyed.get(n, 0) != 1: return "frame: %d never destroyed (task object dropped / overwritten without destroying its coroutine)" % n
+    m = re.search(r"live=(-?\d+) payload=(-?\d+)", tail)
+    if not m: return "crash: " + trace[:200]
+    if int(m.group(1)) != 0: return "heap: %s coroutine frame block(s) not released" % m.group(1)
+    if int(m.group(2)) != 0: return "payload: %s by-value argument instance(s) not destroyed" % m.group(2)
+    return ""
+
+
+TASKBOX_CORPUS = [
+    (1, "N0 N0 N0 A0"),                       # replace a pending task twice, await the survivor
+    (2, "N0 M0:1 N0 A1 A0"),                  # move-construct, assign onto a moved-from task
+    (2, "N0 N1 M0:1 A1"),                     # move-assign onto a pending task
+    (3, "N0 N1 M0:1 M1:2 N0 D2 A1"),
+    (2, "N0 D0 N0 N1 D1"),                    # destroy without awaiting
+    (1, "N0 A0 N0 N0"),                       # assign onto an awaited (empty) task, then onto a pending one
+]
+
+
+def run_taskbox(chk, n_seqs, cfg="plain20"):
+    rng = random.Random(chk.seed * 7001 + 3)
+    exe, err = vlib.build_driver("k3_taskbox", cfg, extra_flags=os.environ.get("K2T_EXTRA_FLAGS", "-g0"))
+    stats = chk.cov.setdefault("taskbox", {"sequences": 0, "ops": 0, "frames": 0, "assign_onto_pending": 0})
+    if err:
+        rp = chk.replay_file("taskbox_build", {"kind": "build-failure", "driver": "k3_taskbox", "error": err[-3000:]})
+        chk.violation("taskbox/build", rp, no_input=True, text="k3_taskbox does not compile against the repository: " + err[-300:].replace("\n", " "))
+        return
+    cases = list(TASKBOX_CORPUS)
+    for _ in range(n_seqs):
+        k = rng.randint(1, 4)
+        ops = []
+        for _o in range(rng.randint(2, 14)):
+            c = rng.random()
+            i = rng.randrange(k + (1 if rng.random() < 0.05 else 0))
+            if c < 0.40: ops.append("N%d" % i)
+            elif c < 0.65: ops.append("M%d:%d" % (i, rng.randrange(k)))
+            elif c < 0.80: ops.append("D%d" % i)
+            else: ops.append("A%d" % i)
+        cases.append((k, " ".join(ops)))
+    ilines = ["%d | %s" % c for c in cases]
+    iout = vlib.run_impl_lines(exe, ilines, chunk=500)
+    mout = vlib.model_run(["taskbox " + l for l in ilines])
+    for (k, ops), il, io, mo in zip(cases, ilines, iout, mout):
+        stats["sequences"] += 1; stats["ops"] += len(ops.split()); stats["frames"] += io.count("frame ")
+        pending_overwritten = bool(re.search(r"frame \d+;framedtor", mo))
+        if pending_overwritten: stats["assign_onto_pending"] += 1
+        chk.count(("taskbox", k, ops), pending_overwritten or "M" in ops)
+        mon = ("crash: " + io[:200]) if io.startswith("CRASH") else taskbox_monitor(io)
+        if io == mo and not mon:
+            chk.cov["traces_validated_against_impl"] += 1
+            if pending_overwritten: chk.sample({"taskbox": il, "trace": io[:300]}, limit=10)
+            continue
+        chk.cov["disagreements_checked"] += 1
+        rec = {"kind": "taskbox", "slots": k, "ops": ops, "impl": io, "model": mo, "monitor": mon,
+               "obligation": "K3 correspondence TaskBox.exec vs unifex::task<int> object operations",
+               "replay": "echo '%s' | %s" % (il, exe)}
+        rp = chk.replay_file("taskbox_%s" % hashlib.sha256(il.encode()).hexdigest()[:10], rec)
+        if mon:
+            chk.violation("taskbox/monitor/%s" % mon.split(":")[0], rp, text="%s | %s" % (il, mon))
+        else:
+            chk.violation("taskbox/corr", rp, no_input=True, text="%s | impl=%s | model=%s" % (il, io[:160], mo[:160]))
